@@ -45,8 +45,10 @@ def extract_tests(pid, name, group, workdir, log, timeout=1800):
     if group.get("cbmc_args_resolved") or group.get("cbmc_args"):
         cmd += ["-Z", "unstable-options", "--cbmc-args"] + (group.get("cbmc_args_resolved") or group["cbmc_args"])
     import guard
+    # counterexample extraction (CBMC with full trace generation) runs alone and needs far more memory
+    # than the verification run (c05::scan_8: 26 GB): cap 40 GB, the system-wide guard still applies
     logf = os.path.join(workdir, "playback_%s.log" % _safe(name))
-    rc = guard.run_guarded(cmd, KANI_DIR, _env("--cfg rtcm_rs_verif"), logf, int(group.get("mem_gb", 12)), timeout_s=timeout)
+    rc = guard.run_guarded(cmd, KANI_DIR, _env("--cfg rtcm_rs_verif"), logf, max(40, int(group.get("mem_gb", 12))), timeout_s=timeout)
     if rc is None:
         return []
     out = open(logf, errors="replace").read()
